@@ -197,7 +197,8 @@ def run_roundtrip(tid, rc, chunking, direction, relay, rng):
     log.addObserver(logged)
     try:
         pair = Pair(relay=relay)
-        settle(pair, chunking="whole")
+        # the relay reply, the prologues, the handshake messages and the KCMs arrive under the same fragmentation
+        settle(pair, chunking=chunking, rng=rng)
         src, dst = (pair.L, pair.F) if direction == "l2f" else (pair.F, pair.L)
         before = len(dst.records)
         rec = concretise_record(rc, rng)
@@ -284,7 +285,7 @@ def run_fault(tid, kind, at, nrecords, chunking, direction, relay, rng, variant)
                 tok = corrupt(kind, tok, genuine[pos - 1], rng, variant, relay)
                 if tok is None:
                     break
-            feed(pair, dst, tok, chunking if pos == at else "whole", rng)
+            feed(pair, dst, tok, chunking, rng)
             pump_other_way()
             t = dst.p.transport
             if (not t.connected or t.disconnecting) and dropped_at is None:
